@@ -8,6 +8,7 @@ import (
 	"encoding/json"
 	"errors"
 	"fmt"
+	"github.com/nspcc-dev/neo-go/pkg/neorpc"
 	"math"
 	"math/rand/v2"
 	"os"
@@ -76,8 +77,12 @@ type adapter struct {
 	// holdUntil says go (a delay at the client boundary, as a slow link would cause)
 	holdOn    string
 	holdUntil func() bool
-	crashOn   string
-	crashVerb string // part of the method name the transaction must call ("register", "Record")
+	// refuseOnce: the first transaction calling this method is answered like a node whose sender cannot pay the fee
+	// just now ("Insufficient funds"), without reaching the pool; the same transaction is acceptable a moment later
+	refuseOnce string
+	refused    atomic.Bool
+	crashOn    string
+	crashVerb  string // part of the method name the transaction must call ("register", "Record")
 	// ... or right after its crashAfter-th accepted submission (transactions and notary requests counted together)
 	crashAfter int
 	sent       atomic.Int64
@@ -121,6 +126,10 @@ func (a *adapter) SendRawTransaction(tx *transaction.Transaction) (util.Uint256,
 	if a.crashed.Load() {
 		a.rec.add(rpcEvent{Member: a.member, Height: a.nd.Height(), Call: "sendrawtransaction", Err: "member is down (injected crash)"})
 		return util.Uint256{}, errors.New("member is down (injected crash)")
+	}
+	if a.refuseOnce != "" && bytes.Contains(tx.Script, []byte(a.refuseOnce)) && a.refused.CompareAndSwap(false, true) {
+		a.rec.add(rpcEvent{Member: a.member, Height: a.nd.Height(), Call: "sendrawtransaction", Info: "injected refusal of the first " + a.refuseOnce, Err: "Insufficient funds (-511) - insufficient funds (injected)"})
+		return util.Uint256{}, fmt.Errorf("%w: injected", neorpc.ErrInsufficientFunds)
 	}
 	if a.holdOn != "" && a.holdUntil != nil && bytes.Contains(tx.Script, []byte(a.holdOn)) && bytes.Contains(tx.Script, []byte("Record")) {
 		for !a.holdUntil() {
@@ -198,9 +207,12 @@ type scenario struct {
 	LateAlso []int
 	// Stagger: members 1..N-2 hand their signatures in together, and only after the highest member's signature has been
 	// in the NNS for three blocks (the leader has seen it alone)
-	Stagger    bool
-	LateDomain string
-	Label      string
+	Stagger bool
+	// RefuseDesignation: the leader's first submission of the transaction designating the Notary role is refused as
+	// unaffordable (as on a chain where the leader has just spent its GAS); it must simply be sent again
+	RefuseDesignation bool
+	LateDomain        string
+	Label             string
 }
 
 func scenarios(tier string, seed uint64) (res []scenario) {
@@ -236,6 +248,11 @@ func scenarios(tier string, seed uint64) (res []scenario) {
 		// (first seeded change for C13: a per-pass signature counter next to a multi-tick map)
 		s = mk(4, "staggered")
 		s.Stagger = true
+		res = append(res, s)
+		// the node refuses the leader's first designation transaction for lack of funds (seeded change C13-10: "tried"
+		// noted before the outcome of the submission is known)
+		s = mk(3, "designation-refused-once")
+		s.RefuseDesignation = true
 		res = append(res, s)
 		// the only member is interrupted right at a stage boundary (seeded change C13-3: a restart between the two role designations)
 		// (every offset of the few blocks between the designation and the first transaction that needs it:
@@ -319,6 +336,9 @@ func scenarios(tier string, seed uint64) (res []scenario) {
 			res = append(res, signerGone(mk(n, "late-majority-signer-gone")))
 			s = mk(n, "staggered")
 			s.Stagger = true
+			res = append(res, s)
+			s = jit(mk(n, "designation-refused-once"))
+			s.RefuseDesignation = true
 			res = append(res, s)
 		}
 		if n >= 3 {
@@ -590,6 +610,9 @@ func runScenario(b *runner.Batch, sc scenario) {
 			return
 		}
 		a := &adapter{Internal: cli, member: i, nd: nd, rec: rec, jitter: time.Duration(sc.JitterMS) * time.Millisecond, rng: rand.New(rand.NewPCG(b.Seed, uint64(b.Index*100+i)))}
+		if sc.RefuseDesignation && i == 0 {
+			a.refuseOnce = "designateAsRole"
+		}
 		if sc.Stagger && i >= 1 && i <= sc.N-2 {
 			var once sync.Once
 			a.holdOn = fmt.Sprintf("designate-committee-notary-%d.bootstrap", i)
